@@ -9,6 +9,7 @@ import (
 	"github.com/arr-ai/arrai/pkg/fu"
 
 	"github.com/arr-ai/frozen"
+	"github.com/arr-ai/hash"
 	"github.com/arr-ai/wbnf/parser"
 )
 
@@ -293,11 +294,12 @@ func (u UnionSet) Equal(s Value) bool {
 }
 
 func (u UnionSet) Hash(seed uintptr) uintptr {
-	h := seed
+	// See GenericSet.Hash.
+	var h uintptr
 	for e := u.Enumerator(); e.MoveNext(); {
 		h ^= e.Current().Hash(0)
 	}
-	return h
+	return hash.Uintptr(h, seed)
 }
 
 func (u UnionSet) OrderedValues() ValueEnumerator {
